@@ -1087,6 +1087,7 @@ class Engine:
 
         self._reset_path(prefix)
         V.ENGINE = self
+        V.LAZY_NTH = bool(getattr(self.contract, "lazy_nth", False))
         self.ctx = Ctx(self)
         c = self.contract
         try:
@@ -1936,6 +1937,8 @@ class Engine:
             finally:
                 if lc is not None:
                     self.loop_ctx.pop()
+            if getattr(spec, "ghost_step", None) is not None:
+                spec.ghost_step(ctx, L)
             if spec.asserts is not None:
                 for label, f in spec.asserts(ctx, L):
                     self.prove_item("assert", "%s.%s" % (spec.name, label), f, assume_after=False)
@@ -2499,6 +2502,19 @@ class LoopCtx:
                 self._elem = lambda i: (i + st0, RecElem(inner, i))
             else:
                 self._elem = lambda i: RecElem(inner, i)
+            return
+        if isinstance(inner, ZipV):
+            # zip(xs, ys, ...): as many steps as the shortest operand, element i is the tuple of the i-th elements
+            views = [eng_seq_view(eng, x) for x in inner.its]
+            n = V.L(views[0])
+            for v in views[1:]:
+                n = V.min_(n, V.L(v))
+            self.n = n
+            mk = lambda i: tuple(eng_elem(eng, x, v, i) for x, v in zip(inner.its, views))
+            if enum:
+                self._elem = lambda i: (i + st0, mk(i))
+            else:
+                self._elem = mk
             return
         seq = eng_seq_view(eng, inner)
         self.seq = seq
